@@ -363,10 +363,31 @@ def conflict_table(rng):
 def gen_job(jid, rng, kind):
     extra_inputs = []
     forced_cut = None
+    repeat = False
     if kind == "conflict":
         tb, forced_cut, extra_inputs = conflict_table(rng)
+    elif kind == "repeat":
+        # a file that occurs twice in the list (a,b,a), with entries in between for which the LAST definition wins: the
+        # second occurrence has to be compiled again, as the concatenated file shows (seeded change C16-D)
+        tb = G.gen_table(rng, "f0")
+        repeat = True
+        h = rng.randint(1, max(1, len(tb.rules) - 1))
+        pre = [G.Rule(None, raw="numsign 3456"), G.Rule(None, raw="undefined 26")]
+        mid = [G.Rule(None, raw="numsign 56"), G.Rule(None, raw="undefined 346-1")]
+        tb.rules = pre + tb.rules[:h] + mid + tb.rules[h:]
+        forced_cut = len(pre) + h
+        digs = [c for c in tb.chars() if tb.attrs.get(c) in ("digit", "litdigit")] or [0x31]
+        extra_inputs = [[digs[0]], [0x7e, digs[0], 0x20, 0x7e], [0x20, digs[-1], digs[0]], [0x3b1]]
     else:
         tb = G.gen_table(rng, kind)
+    if rng.random() < 0.3:
+        # the last character of the 16-bit range and its neighbour, written literally in one spelling and as escapes in the other
+        for c in (0xffff, 0xfffe):
+            if c not in tb.charcell:
+                cell = rng.randint(64, 255)
+                tb.rules.append(G.Rule("sign", [c], [cell]))
+                tb.charcell[c] = cell
+                tb.attrs[c] = "sign"
     job = Job(jid, "generated-" + kind, "generated")
     rules = tb.rules
     nparts = rng.randint(1, 3)
@@ -381,7 +402,8 @@ def gen_job(jid, rng, kind):
         return {m: ("\n".join(rule_text(r, rng, **kw) for r in rules[a:b]) + "\n").encode("utf-8")
                 for m, a, b in zip(members, bounds, bounds[1:])}
     files = render()
-    build_variants(job, files, members, rng, generated=(render(respell=True), render(dotsperm=True)))
+    lmembers = (members + members[:1]) if repeat else members
+    build_variants(job, files, lmembers, rng, generated=(render(respell=True), render(dotsperm=True)))
     for u in extra_inputs:
         job.inputs.append(("F", 4, u))
     for _ in range(8):
@@ -464,7 +486,7 @@ def run(tier):
             jobs.append(j)
     ng = 150 if tier == "quick" else 3000
     for i in range(ng):
-        jobs.append(gen_job("%d" % i, rng, rng.choice(["f0", "multipass", "mixed", "conflict"])))
+        jobs.append(gen_job("%d" % i, rng, rng.choice(["f0", "multipass", "mixed", "conflict", "repeat"])))
     with ThreadPoolExecutor(common.NCPU) as ex:
         list(ex.map(lambda j: run_job(exe, j), jobs))
     dist = {"lists_shipped": sum(1 for j in jobs if j.kind == "shipped"), "tables_generated": ng, "variants": {},
